@@ -227,11 +227,11 @@ Definition groupby_l {K V} (keq : K -> K -> bool) (key : V -> K) (l : list V) : 
 Definition oz_eqb (a b : option Z) : bool :=
   match a, b with Some x, Some y => x =? y | None, None => true | _, _ => false end.
 Definition groupby_rf (l : list bm) : list (option Z * list bm) := groupby_l oz_eqb bm_rf l.
-(* specification side: keys in order of first occurrence *)
-Fixpoint first_keys {K} (keq : K -> K -> bool) (ks : list K) (seen : list K) : list K :=
+(* specification side: the distinct keys in order of first occurrence *)
+Fixpoint dedup {K} (keq : K -> K -> bool) (ks : list K) : list K :=
   match ks with
   | [] => []
-  | k :: r => if existsb (keq k) seen then first_keys keq r seen else k :: first_keys keq r (k :: seen)
+  | k :: r => k :: filter (fun x => negb (keq x k)) (dedup keq r)
   end.
 
 (* ---------------------------------------------------------------- specification side: the language of a pattern *)
